@@ -154,9 +154,19 @@ func NewRes(k Key, o Obj) resource.Resource {
 type CrMap struct {
 	mu sync.Mutex
 	m  map[int64]int
+	// Raw: classes that agree across processes (microseconds modulo 2e9 instead of first-seen numbering)
+	Raw bool
 }
 
 func (c *CrMap) Class(t time.Time) int {
+	if c.Raw {
+		if t.IsZero() {
+			return 0
+		}
+
+		return int((t.UnixNano()/1000)%2_000_000_000) + 1
+	}
+
 	c.mu.Lock()
 	defer c.mu.Unlock()
 
